@@ -1282,3 +1282,45 @@ def tr_api_grapheq(tr1, top1, tr2, top2):
 def tr_api_aln(text):
     m = surface.Alignment.from_string('~' + text)
     return {'kind': 'api-aln', 'text': text, 'str': str(m), 'prefix': m.prefix or '', 'indices': list(m.indices)}
+
+
+def tr_api_errstr(message=None, filename=None, lineno=None, offset=None, text=None, raised_from=None):
+    """The text of a DecodeError: built from its documented fields, or (raised_from) raised by the parser on an ill-formed text."""
+    if raised_from is not None:
+        try:
+            penman.parse(raised_from)
+            e = DecodeError('not raised')
+        except DecodeError as exc:
+            e = exc
+    else:
+        e = DecodeError(message, filename=filename, lineno=lineno, offset=offset, text=text)
+    w = lambda x: ab.NULL if x is None else str(x)   # noqa: E731
+    return {'kind': 'api-errstr', 'raised': raised_from is not None, 'input': raised_from or '', 'off': e.offset if isinstance(e.offset, int) and e.offset >= 0 else 0,
+            'e': {'message': w(e.message), 'filename': w(e.filename), 'lineno': w(e.lineno), 'offset': w(e.offset), 'text': w(e.text)},
+            'str': str(e)}
+
+
+def tr_api_modeleq(d1, d2):
+    """d: keyword description of a model (roles, normalizations, reifications, top_variable, top_role, concept_role)."""
+    def mk(d):
+        kw = dict(d)
+        if 'reifications' in kw:
+            kw['reifications'] = [tuple(x) for x in kw['reifications']]
+        return kw
+    a, b = Model(**mk(d1)), Model(**mk(d2))
+    norm = lambda d: _json.dumps({k: (sorted(map(list, v)) if k == 'reifications' else v) for k, v in mk(d).items()   # noqa: E731
+                                  if v not in ({}, [], None)}, sort_keys=True, default=list)
+    defaults = {'top_variable': 'top', 'top_role': ':TOP', 'concept_role': ':instance'}
+    full = lambda d: norm({**defaults, **d})   # noqa: E731
+    return {'kind': 'api-model-eq', 'same': full(d1) == full(d2), 'eq': bool(a == b), 'eq_from_dict': bool(Model.from_dict(mk(d1)) == a),
+            'neq_other': bool(a != 'a model') and bool(a != None) and (a.__eq__(3) is NotImplemented)}   # noqa: E711
+
+
+def tr_api_args(args, usage_error):
+    """The command's answer to its arguments alone (empty input on stdin): a real subprocess, so that argparse's own exit is seen."""
+    d = _clidir()
+    env = dict(os.environ, PYTHONPATH=os.environ.get('PENMAN_SRC', '/repo'), PYTHONIOENCODING='utf-8')
+    p = subprocess.run([sys.executable, '-m', 'penman'] + list(args), input='', capture_output=True, text=True, encoding='utf-8',
+                       env=env, timeout=60, cwd=d)
+    return {'kind': 'api-args', 'args': list(args), 'usage_error': bool(usage_error), 'exit': p.returncode, 'out': p.stdout,
+            'err_nonempty': bool(p.stderr.strip())}
